@@ -3,3 +3,5 @@ import HypnoModel.Drv.C13
 import HypnoModel.Drv.C08
 import HypnoModel.Drv.C20
 import HypnoModel.Drv.C09
+import HypnoModel.Drv.C02
+import HypnoModel.Drv.C10
